@@ -70,7 +70,7 @@ def table():
         meta = json.load(open(os.path.join(d, 'meta.json')))
         rp = os.path.join(d, 'result.json')
         allr = json.load(open(rp)) if os.path.exists(rp) else {}
-        r1 = allr.get('round1', {}) or allr.get('round2_run', {}) or {}
+        r1 = allr.get('round1', {}) or allr.get('round2_run', {}) or allr.get('round3_first', {}) or {}
         cur = allr.get('current', {})
         results = dict(r1.get('results', {}))
         results.update(cur.get('results', {}))
